@@ -1013,5 +1013,64 @@ fn main() {
             });
         }
     }
+    // (5) prism family: the one-chamber symbols [p,2,q] (group D_p x D_q of order 4pq acting on
+    // S^3) and ALL their manifold covers: a subgroup acts freely iff it is cyclic, generated by
+    // (s0 s1)^a (s2 s3)^b with both rotation components of the same order n — lens spaces with
+    // fundamental group Z/n.  Each in the natural numbering and 6 (thorough 10) renumberings.
+    // The first block is the literal 24-chamber Z/6 cover of [6,2,6] of the seeded-change study.
+    {
+        let nren_prism = if thorough { 10 } else { 6 };
+        {
+            let mut rng = ctx.rng(6000);
+            blocks.run(&mut ctx, move || {
+                let mut out = vec![];
+                let cover: PartialDSym = "<1.1:24 3:2 9 7 8 11 14 16 17 19 22 24 23,3 6 8 10 12 13 15 18 20 21 23 24,4 7 8 9 12 13 16 17 20 21 24 23,5 8 10 6 11 14 15 18 19 22 23 24:6 6,2 2 2 2 2 2,6 6>"
+                    .parse()
+                    .expect("witness cover");
+                input_cases(&mut out, "prism-lens", 1, &Tab::from_dsym(&cover), &mut rng, nren_prism, true, full_limit, max_steps);
+                out
+            });
+        }
+        fn gcd(a: usize, b: usize) -> usize {
+            if b == 0 { a } else { gcd(b, a % b) }
+        }
+        let mut k = 0u64;
+        for p in 2..=6usize {
+            for q in 2..=6usize {
+                for a in 1..p {
+                    for b in 1..q {
+                        if p / gcd(a, p) != q / gcd(b, q) {
+                            continue;
+                        }
+                        k += 1;
+                        let mut rng = ctx.rng(6000 + k);
+                        blocks.run(&mut ctx, move || {
+                            let mut out = vec![];
+                            let sym: PartialDSym = format!("<1.1:1 3:1,1,1,1:{},2,{}>", p, q).parse().expect("prism symbol");
+                            let fg = fundamental_group(&sym);
+                            let gen = |i: usize| fg.gen_to_edge.iter().find(|(_, &e)| e == (1, i)).map(|(&g, _)| g as isize);
+                            let (Some(g0), Some(g1), Some(g2), Some(g3)) = (gen(0), gen(1), gen(2), gen(3)) else { return out };
+                            let mut w: Vec<isize> = vec![];
+                            for _ in 0..a {
+                                w.push(g0);
+                                w.push(g1);
+                            }
+                            for _ in 0..b {
+                                w.push(g2);
+                                w.push(g3);
+                            }
+                            let Some(cov) = pre(|| subgroup_cover(&sym, &vec![FreeWord::new(w)])) else { return out };
+                            let cov = Tab::from_dsym(&cov);
+                            let branch_free = (0..cov.dim).all(|i| (1..=cov.size).all(|d| cov.v[i][d] == 1));
+                            if branch_free {
+                                input_cases(&mut out, "prism-lens", 1, &cov, &mut rng, nren_prism, true, full_limit, max_steps);
+                            }
+                            out
+                        });
+                    }
+                }
+            }
+        }
+    }
     ctx.finish();
 }
